@@ -10,6 +10,7 @@ CLAUSES = {
     6: "a rate/concurrency permit taken for a transaction was not returned by the end of the session",
     11: "a target was asked to commit a delivery whose body it never accepted (Body failed or was never given)",
     12: "MAIL or RCPT was accepted although the scripted check rejects that sender / recipient",
+    13: "a target was committed by something else than a DATA command that ran to its end (e.g. the connection was lost in the middle of the content)",
     107: "a second EHLO/LHLO inside a transaction makes go-smtp create a fresh session but keep its own MAIL/RCPT state: recipients accepted before it are reported as delivered by the next DATA although they belong to the aborted transaction",
     109: "LMTP: the Commit of one target failed after another target had already been committed (map iteration order); the recipients of the committed target are told failure and will be delivered again on retry",
 }
